@@ -143,6 +143,7 @@ func c09Run(c *Ctx) {
 	}
 	Flags{}.Apply()
 	c09History(c, keys)
+	c09Streams(c, keys)
 	// ---- (2) corruption: every single-byte substitution and every truncation of ciphertexts; every
 	// key differing in one byte
 	if true {
@@ -350,6 +351,98 @@ func c09History(c *Ctx, keys [][]byte) {
 	c.Count("max:history_distinct_values", int64(N))
 	c.Count("history_values_met_again", int64(again))
 	c.Distinct(fmt.Sprintf("history/%d", c.Shard))
+}
+
+// c09Streams: one process, one key, SEVERAL logs one after the other - what Atlas mode does with the logs of the
+// hosts of a cluster.  Every sequence of up to 3 (thorough 4) streams over {plain reader, gzip file, file without a
+// final newline, stream that ends in an error after a good line, empty stream}: every ciphertext of every stream
+// must decrypt under the key that was set once, to the literal of its own line.
+func c09Streams(c *Ctx, keys [][]byte) {
+	if c.NShards > 1 && c.Shard > 1 {
+		return
+	}
+	key := keys[c.Shard%2]
+	mkLine := func(pt string) string {
+		return LO("t", LO("$date", LS("2024-05-01T10:00:00.123+00:00")), "s", LS("I"), "c", LS("COMMAND"), "id", LN("1"), "ctx", LS("c"), "msg", LS("Slow query"),
+			"attr", LO("ns", LS("d.c"), "command", LO("find", LS("c"), "filter", LO("fld", LS(pt)), "$db", LS("d")))).JSON()
+	}
+	kinds := []string{"reader", "gzip-file", "no-final-newline", "ends-in-error", "empty"}
+	depth := 3
+	if c.Thorough() {
+		depth = 4
+	}
+	var seqNo int
+	body := func(x *X) {
+		n := 1 + x.Free(depth, "streams")
+		seq := make([]int, n)
+		for i := range seq {
+			seq[i] = x.Free(len(kinds), "stream kind")
+		}
+		seqNo++
+		Flags{Y: true, Key: append([]byte{}, key...)}.Apply() // the key is set ONCE, like main() does
+		for si, k := range seq {
+			pts := []string{fmt.Sprintf("stream %d of %v first secret", si, seq), fmt.Sprintf("second secret é %d/%d", seqNo, si)}
+			text := mkLine(pts[0]) + "\n" + mkLine(pts[1]) + "\n"
+			var out bytes.Buffer
+			var err error
+			wantErr := false
+			switch kinds[k] {
+			case "reader":
+				err = ProcessMongoLogFileFromReader(strings.NewReader(text), &out, nil)
+			case "gzip-file":
+				err = ProcessMongoLogFile(&c06FR{data: gz([]byte(text)), ext: ".gz"}, "x.log.gz", &out, nil)
+			case "no-final-newline":
+				err = ProcessMongoLogFile(&c06FR{data: []byte(strings.TrimSuffix(text, "\n")), ext: ".log"}, "x.log", &out, nil)
+			case "ends-in-error":
+				err = ProcessMongoLogFileFromReader(strings.NewReader(text+strings.Repeat("x", 70000)+"\n"), &out, nil)
+				wantErr = true
+			case "empty":
+				pts = nil
+				err = ProcessMongoLogFileFromReader(strings.NewReader(""), &out, nil)
+			}
+			c.Eval(1)
+			rp := map[string]any{"kind": "c09-streams", "sequence": fmt.Sprint(seq), "stream": si}
+			if (err != nil) != wantErr {
+				c.Violate("streams:unexpected-result", fmt.Sprintf("stream %d (%s) of the sequence %v in one process returns %v", si, kinds[k], seq, err), int64(len(seq)), rp, nil)
+				continue
+			}
+			lines := strings.Split(strings.TrimSuffix(out.String(), "\n"), "\n")
+			if len(pts) == 0 {
+				if out.Len() != 0 {
+					c.Violate("streams:output-for-empty-stream", fmt.Sprintf("an empty stream (position %d of %v) produced output %q", si, seq, trunc(out.String(), 80)), int64(len(seq)), rp, nil)
+				}
+				continue
+			}
+			if len(lines) != len(pts) {
+				c.Violate("streams:line-count", fmt.Sprintf("stream %d (%s) of %v: %d output lines for %d input lines", si, kinds[k], seq, len(lines), len(pts)), int64(len(seq)), rp, nil)
+				continue
+			}
+			for li, l := range lines {
+				bad := ""
+				j, e := ParseJSON([]byte(l))
+				var o *JNode
+				if e == nil {
+					o = follow(j, []int{6, 1, 1, 0})
+				}
+				if o == nil || o.Kind != JStr {
+					bad = "the leaf is not a string"
+				} else if raw, e := base64.StdEncoding.Strict().DecodeString(o.Str); e != nil {
+					bad = "the emitted text is not standard base64: " + trunc(o.Str, 40)
+				} else if b, e := Decrypt(raw, key); e != nil {
+					bad = fmt.Sprintf("the emitted text does not decrypt under the key of the run (%v)", e)
+				} else if string(b) != pts[li] {
+					bad = fmt.Sprintf("the emitted text decrypts to %q, not to %q", trunc(string(b), 60), pts[li])
+				}
+				if bad != "" {
+					c.Violate("streams:wrong-ciphertext", fmt.Sprintf("one process, one key, logs processed one after the other %v (kinds %v): line %d of log %d (%s): %s", seq, kinds, li, si, kinds[k], bad), int64(len(seq)*10+si), rp, nil)
+				}
+			}
+		}
+		c.Distinct(fmt.Sprintf("streams/%d/%v", c.Shard, seq))
+	}
+	st := Explore(body, ExploreOpts{Bound: -1}, func(x *X) {})
+	c.Count("stream_sequences", st.Executions)
+	Flags{}.Apply()
 }
 
 func c09CLI(c *Ctx) {
